@@ -18,7 +18,7 @@ EXPLANATION = (
     'an Err value. R02.g a value delivered into a legacy future reaches the asking task (pending poll keeps this poll\'s waker under the slot\'s '
     'lock; resolve delivers, takes and wakes under it). R02.h a serialised resolution addressed to no outstanding request (a second response to a '
     'one-shot) is an Err, never a panic. R02.i the arity state of a resolver is written only inside its own resolve(). Cross-delivery freedom under every '
-    'interleaving is argued from ownership, not decided. R02.j every serialised effect, notifications included, is stored under and announced with the slab key of its own resolver, and nothing renumbers the registry (shared with C09).')
+    'interleaving is argued from ownership, not decided. R02.j every serialised effect, notifications included, is stored under and announced with the slab key of its own resolver, and nothing renumbers the registry (shared with C09). R02.m the bridge codec has one options value and no byte limit (shared with C10): a limit applies when decoding only, after the one-shot entry was taken out.')
 
 CLOSURE_CALLS = ['core::ops::function::Fn::call', 'core::ops::function::FnMut::call_mut', 'core::ops::function::FnOnce::call_once']
 
